@@ -73,7 +73,7 @@ class StreamWrapper(IOBase):
             return self.readall()
 
         self.true_size = size
-        if self.end_of_file is not None and self.end_of_file > 0:
+        if self.end_of_file is not None and self.end_of_file >= 0:
             self.true_size = min(self.end_of_file - self.position, size)
         if self.true_size < 0:
             self.true_size = 0
